@@ -24,6 +24,7 @@ type VEvent struct {
 	N     int    `json:"n,omitempty"`     // LA: batch size; RP: max entries (0 = all); HT: entries to drop
 	Node  int    `json:"node,omitempty"`  // RP/RS/HT target; LC new leader
 	Split bool   `json:"split,omitempty"` // RP: one StoreLogs per entry instead of one batch
+	Fail  bool   `json:"fail,omitempty"`  // LA/RP: the node's store fails the (first) StoreLogs once; the call is then retried
 }
 
 func (e VEvent) String() string {
@@ -33,6 +34,9 @@ func (e VEvent) String() string {
 		if e.CP {
 			s += ",cp"
 		}
+		if e.Fail {
+			s += ",fail+retry"
+		}
 		return s + ")"
 	case "RP":
 		s := fmt.Sprintf("RP(n%d", e.Node)
@@ -41,6 +45,9 @@ func (e VEvent) String() string {
 		}
 		if e.Split {
 			s += ",split"
+		}
+		if e.Fail {
+			s += ",fail+retry"
 		}
 		return s + ")"
 	case "LC":
@@ -123,11 +130,23 @@ func applyMutation(l *raft.Log, field string) {
 	}
 }
 
-// corruptStore returns altered entries for chosen indexes (corruption at rest).
+// corruptStore returns altered entries for chosen indexes (corruption at rest)
+// and can make the next StoreLogs fail without storing anything.
 type corruptStore struct {
 	raft.LogStore
-	mut map[uint64]string
+	mut      map[uint64]string
+	failNext bool
 }
+
+func (c *corruptStore) StoreLogs(logs []*raft.Log) error {
+	if c.failNext {
+		c.failNext = false
+		return errors.New("injected store failure")
+	}
+	return c.LogStore.StoreLogs(logs)
+}
+
+func (c *corruptStore) StoreLog(l *raft.Log) error { return c.StoreLogs([]*raft.Log{l}) }
 
 func (c *corruptStore) GetLog(i uint64, l *raft.Log) error {
 	if err := c.LogStore.GetLog(i, l); err != nil {
@@ -163,10 +182,11 @@ type VCluster struct {
 	Leader int
 	Term   uint64
 	// truth[c] = the entries [start,c) as the checkpointing leader held them when it wrote checkpoint c
-	truth  map[string][]*raft.Log
-	Viol   []Violation
-	seq    int
-	flight *Mutation
+	truth    map[string][]*raft.Log
+	Viol     []Violation
+	seq      int
+	failOnce bool
+	flight   *Mutation
 	// per-report verdict bookkeeping
 	Checked       int
 	Clean         int // reports for ranges the node held intact
@@ -301,12 +321,27 @@ func (c *VCluster) storeOn(nd *vnode, logs []*raft.Log) error {
 	for _, l := range logs {
 		nd.handed[l.Index] = cloneLog(l)
 	}
+	if c.failOnce {
+		c.failOnce = false
+		nd.cs.failNext = true
+		// raft hands the same entries again after a failed append; a leader's checkpoint
+		// entry gets its metadata written into Extensions by the first attempt, so the
+		// retry uses fresh copies of what the caller submitted
+		first := make([]*raft.Log, len(logs))
+		for i, l := range logs {
+			first[i] = cloneLog(l)
+		}
+		if err := nd.v.StoreLogs(first); err == nil {
+			return fmt.Errorf("injected store failure was swallowed")
+		}
+	}
 	return nd.v.StoreLogs(logs)
 }
 
 // Apply executes one event and lets the verifier goroutines run to quiescence.
 func (c *VCluster) Apply(e VEvent) {
 	ld := c.Nodes[c.Leader]
+	c.failOnce = e.Fail
 	switch e.K {
 	case "LA":
 		next := c.last(ld) + 1
